@@ -12,8 +12,45 @@ EQ = 'equivalent: '
 OUT = 'outside the 20 properties: '
 
 
+def rule_pyx(m):
+    f, t, o, n, ln = m['file'], m['text'], m['old'], m['new'], m['line']
+    if f.endswith('cython_distances.pyx') and 393 <= ln <= 568:
+        return OUT + 'dead code: `spike_distance_rf_cython` / `isi_avrg_rf_cython` are never called from the package'
+    if t.startswith('cdef double interval = t_end - t_start'):
+        return EQ + 'dead variable (`true_max` is computed from `t_end - t_start` directly)'
+    if f.endswith('cython_distances.pyx') and (t == 'index = 1' or t == 'index += 1'):
+        return EQ + 'dead counter of the single-pass routines'
+    if 'spike_value += 0.5*(y_start + y_end)' in t and ln in (354,):
+        return EQ + 'tie branch: `y_end = 0.0` on the line before'
+    if f.endswith('cython_distances.pyx') and re.match(r'if s[12]\[0\] > t_start:', t):
+        return EQ + 'single-pass integral: a first piece of width 0 contributes nothing'
+    if f.endswith('cython_distances.pyx') and ln in (93, 106, 587) or (f.endswith('cython_distances.pyx') and ln == 595 and m['col'] == 55):
+        return EQ + 'tie handled as two consecutive events of distance 0: the zero-width piece contributes nothing to the integral / the same spikes are counted'
+    if o == 'and' and n == 'or' and ln in (105, 595) and f.endswith('cython_distances.pyx'):
+        return EQ + 'the weakened guard is only reachable when the loop condition has already failed'
+    if re.search(r'double MRTS=0\.?(, int RI ?= ?0)?\):', t) and o == '0':
+        return EQ + 'default value of a parameter that every caller passes'
+    if re.match(r'assert N[12] > 0', t):
+        return OUT + 'input validation (empty arrays are replaced by the edges before the call)'
+    if f.endswith('cython_get_tau.pyx') and ln in (10, 11, 12):
+        return EQ + 'the interpolation is continuous at both thresholds'
+    if re.search(r'np\.(empty|zeros|ones)\(', t):
+        return EQ + 'work buffer size; the result is sliced to the filled part (the smaller sizes still hold the merged result because both operands share their end points)'
+    if f.endswith('cython_add.pyx') and (re.match(r'while \(index1\+1 < N1-1\)', t) or re.match(r'elif index2\+1 < N2-1', t)):
+        return EQ + '`add`: running the merge loop into the tail does what the tail copy does (both end on the common last breakpoint)'
+    if 'get_min_dist_cython(t_p' in t and o == '1':
+        return EQ + 'the auxiliary end spike can only matter after non-increasing distances, where the start auxiliary spike is not closer'
+    if 'while i + j < N1 + N2 - 2' in t and f.endswith('cython_directionality.pyx') and ln == 242:
+        return EQ + 'extra iterations after both trains are exhausted fall into the tie branch, which only advances the cursors (the counter `d` is not touched)'
+    return None
+
+
 def rule(m):
     f, t, o, n, ln = m['file'], m['text'], m['old'], m['new'], m['line']
+    if f.endswith('.pyx'):
+        r = rule_pyx(m)
+        if r:
+            return r
     if 'almost_equal' in t or 'np.allclose(self.' in t:
         return OUT + '`almost_equal` helper (never part of a property)'
     if re.search(r'np\.(empty|zeros|ones)\(', t) and ('N1' in t or 'len(' in t or t.startswith(('t_aux', 'st =', 'c =', 'mp =', 'a ='))) and (o, n) in (('2', '3'), ('-', '+'), ('1', '0'), ('1', '2')):
@@ -32,7 +69,7 @@ def rule(m):
         return EQ + 'tie on the last spike: `dt_f = dt_p` makes the interpolation independent of `t_f`'
     if 'if t<mab: return mab' in t or 'if t > b:  return b' in t:
         return EQ + 'the interpolation is continuous at both thresholds'
-    if 'python_backend' in f and ('spikes2[j+1] < spikes1[i]' in t or 'spikes2[j] < spikes1[i]' in t):
+    if ('python_backend' in f or f.endswith('cython_profiles.pyx')) and ('spikes2[j+1] < spikes1[i]' in t or 'spikes2[j] < spikes1[i]' in t):
         return EQ + 'single-spike scan: the two-step look-ahead reaches the same partner; simultaneous spikes are coincident either way (C03.filter_indicator_is_pairwise_definition holds for both)'
     if re.search(r'while \(index1\+1 < len\(y1?1?\)\)', t) or re.search(r'^elif index2\+1 < len\(y2?1?\)', t):
         return EQ + '`add`: running the merge loop into the tail does what the tail copy does (both end on the common last breakpoint)'
